@@ -1,0 +1,16 @@
+// +build !verif
+
+package tmutex
+
+// Schedule points used only by the verif build; no-ops here.
+const (
+	verifLockAdd = iota
+	verifLockLoad
+	verifLockRecv
+	verifTryLoad
+	verifTryCAS
+	verifUnlockSwap
+	verifUnlockSend
+)
+
+func verifPoint(int) {}
